@@ -435,8 +435,33 @@ let op_dynrealm opidx impl toks =
        | _ -> ())
   | _ -> ()
 
+(* ---- C07: DNS resource records (dns.c), index-level model; name expansion = what libresolv answered ---- *)
+let op_dns opidx (_impl : string list option) (kind : string) toks =
+  let rdata = bytes_of_hex (match toks with h :: _ -> h | [] -> "-") in
+  let dn (off : z) : (z * n list) option =
+    match Hashtbl.find_opt oracle (Printf.sprintf "dn:%d" opidx, string_of_int (int_of_z off)) with
+    | Some a when a <> "-" ->
+        (match String.index_opt a ':' with
+         | Some i -> Some (z_of_int (int_of_string (String.sub a 0 i)), bytes_of_hex (String.sub a (i + 1) (String.length a - i - 1)))
+         | None -> None)
+    | _ -> None in
+  let hexs b = hex_of_bytes (cstr b) in      (* the C structure holds NUL-terminated strings *)
+  if kind = "naptr" then
+    (match parsenaptr dn rdata with
+     | Fault _ -> pr "obs %d naptr model-fault\n" opidx; spec opidx "C07_dns_in_bounds" false "the model reads outside the record"
+     | Ok None -> pr "obs %d naptr none\n" opidx
+     | Ok (Some r) -> pr "obs %d naptr %d %d %s %s %s %s\n" opidx (int_of_n r.na_order) (int_of_n r.na_pref)
+                        (hexs r.na_flags) (hexs r.na_services) (hexs r.na_regexp) (hexs r.na_replacement))
+  else
+    (match parsesrv dn rdata with
+     | Fault _ -> pr "obs %d srv model-fault\n" opidx; spec opidx "C07_dns_in_bounds" false "the model reads outside the record"
+     | Ok None -> pr "obs %d srv none\n" opidx
+     | Ok (Some r) -> pr "obs %d srv %d %d %d %s\n" opidx (int_of_n r.sr_priority) (int_of_n r.sr_weight) (int_of_n r.sr_port) (hexs r.sr_host))
+
 let run (opidx : int) (impl : string list option) (toks : string list) : bool =
   match toks with
+  | "naptr" :: rest -> op_dns opidx impl "naptr" rest; true
+  | "srv" :: rest -> op_dns opidx impl "srv" rest; true
   | "choose" :: rest -> op_choose opidx impl rest; true
   | "realm" :: rest -> op_realm opidx impl rest; true
   | "dynrealm" :: rest -> op_dynrealm opidx impl rest; true
